@@ -9,11 +9,41 @@
 #include <map>
 #include <mutex>
 
-/* one std::istream per simulated source.  Nothing is ever read through it: SimLexer::LexerInput
- * asks the simulator, the stream buffer only identifies the source */
+/* one std::istream per simulated source.  With SIM_USER_INPUT nothing is ever read through it
+ * (SimLexer::LexerInput asks the simulator, the stream buffer only identifies the source); without,
+ * yyFlexLexer::LexerInput reads it like any stream: get() one character at a time in interactive
+ * scanners, read() of whole blocks otherwise - a stream buffer never returns less than was asked
+ * for unless the source has ended, so the read schedule only decides where the ends fall */
 struct SimSB : public std::streambuf {
 	FILE *f;
-	explicit SimSB(FILE *ff) : f(ff) {}
+	char ch;
+	explicit SimSB(FILE *ff) : f(ff), ch(0) {}
+protected:
+	int_type underflow()
+	{
+		if (gptr() < egptr())
+			return traits_type::to_int_type(*gptr());
+		if (sim_read_user(f, &ch, 1) <= 0)
+			return traits_type::eof();
+		setg(&ch, &ch, &ch + 1);
+		return traits_type::to_int_type(ch);
+	}
+	std::streamsize xsgetn(char *s, std::streamsize n)
+	{
+		std::streamsize got = 0;
+		while (got < n) {
+			if (gptr() < egptr()) {
+				s[got++] = *gptr();
+				gbump(1);
+				continue;
+			}
+			int r = sim_read_user(f, s + got, (size_t) (n - got));
+			if (r <= 0)
+				break;
+			got += r;
+		}
+		return got;
+	}
 };
 static std::mutex sim_streams_mu;
 static std::map<FILE *, std::istream *> sim_streams;
@@ -39,10 +69,12 @@ void yyfree(void *p) { sim_free(p); }
 
 FILE *SimLexer::in_file() { return sim_file_of(yyin.rdbuf()); }
 
+#if SIM_USER_INPUT
 int SimLexer::LexerInput(char *buf, int max_size)
 {
 	return sim_read_user(in_file(), buf, (size_t) max_size);
 }
+#endif
 
 void SimLexer::common_op(const sim_xop *x)
 {
